@@ -279,7 +279,10 @@ func (e *FieldExpression) unwrapReference(ref *dtpb.Reference) *dtpb.String {
 func (e *FieldExpression) unwrapOneof(obj proto.Message) proto.Message {
 	message := obj.ProtoReflect()
 	descriptor := message.Descriptor()
-	if name := string(descriptor.Name()); !(strings.HasSuffix(name, "ValueX") || name == "ContainedResource") {
+	// a choice element (value[x], deceased[x], effective[x], ...) is generated as a wrapper
+	// message <Name>X around a oneof called "choice"
+	isChoice := strings.HasSuffix(string(descriptor.Name()), "X") && descriptor.Oneofs().ByName("choice") != nil
+	if !(isChoice || descriptor.Name() == "ContainedResource") {
 		return obj
 	}
 	oneofsNum := descriptor.Oneofs().Len()
